@@ -33,6 +33,62 @@ theorem cancel_sameCore' (s : St) (i : Nat) :
   · simp only
     split <;> exact ⟨rfl, rfl⟩
 
+/-- a cancellation never touches the code objects, the wrapper cache or the executed snapshot -/
+theorem cancel_code (s : St) (i : Nat) :
+    (cancel s i).grown = s.grown ∧ (cancel s i).loaded = s.loaded ∧ (cancel s i).cur = s.cur ∧
+    (cancel s i).gone = s.gone := by
+  unfold cancel
+  split
+  · exact ⟨rfl, rfl, rfl, rfl⟩
+  · simp only
+    split <;> exact ⟨rfl, rfl, rfl, rfl⟩
+
+theorem cancelAll_code (s : St) (is : List Nat) :
+    (cancelAll s is).grown = s.grown ∧ (cancelAll s is).loaded = s.loaded ∧
+    (cancelAll s is).cur = s.cur ∧ (cancelAll s is).fmod = s.fmod ∧
+    (cancelAll s is).gone = s.gone := by
+  induction is generalizing s with
+  | nil => exact ⟨rfl, rfl, rfl, rfl, rfl⟩
+  | cons i t ih =>
+    show (cancelAll (cancel s i) t).grown = _ ∧ _
+    obtain ⟨a, b, c, d, e⟩ := ih (cancel s i)
+    obtain ⟨a', b', c', e'⟩ := cancel_code s i
+    exact ⟨a.trans a', b.trans b', c.trans c', d.trans (cancel_sameCore' s i).1, e.trans e'⟩
+
+/-- the storage of the VM that no cancellation reads: the file-module cache ... -/
+theorem cancel_fmod (s : St) (i : Nat) (b : Bool) :
+    cancel { s with fmod := b } i = { cancel s i with fmod := b } := by
+  unfold cancel
+  simp only
+  split
+  · rfl
+  · split <;> rfl
+
+theorem cancelAll_fmod (s : St) (is : List Nat) (b : Bool) :
+    cancelAll { s with fmod := b } is = { cancelAll s is with fmod := b } := by
+  induction is generalizing s with
+  | nil => rfl
+  | cons i t ih =>
+    show cancelAll (cancel { s with fmod := b } i) t = _
+    rw [cancel_fmod, ih]; rfl
+
+/-- ... and the wrapper cache -/
+theorem cancel_loaded (s : St) (i : Nat) (l : List (Nat × Nat)) :
+    cancel { s with loaded := l } i = { cancel s i with loaded := l } := by
+  unfold cancel
+  simp only
+  split
+  · rfl
+  · split <;> rfl
+
+theorem cancelAll_loaded (s : St) (is : List Nat) (l : List (Nat × Nat)) :
+    cancelAll { s with loaded := l } is = { cancelAll s is with loaded := l } := by
+  induction is generalizing s with
+  | nil => rfl
+  | cons i t ih =>
+    show cancelAll (cancel { s with loaded := l } i) t = _
+    rw [cancel_loaded, ih]; rfl
+
 theorem cancelAll_sameCore (s : St) (is : List Nat) : sameCore (cancelAll s is) s := by
   induction is generalizing s with
   | nil => exact sameCore_refl s
@@ -49,7 +105,7 @@ theorem cancel_of_cancelled (s : St) (i : Nat) (h : i ∈ s.cancelled) : cancel 
   unfold cancel; simp [h]
 
 theorem cancel_fires (s : St) (i : Nat) (h : fires s i = true) :
-    cancel s i = { s with cancelled := i :: s.cancelled, halt := true, armed := s.armed.erase i } := by
+    cancel s i = { s with cancelled := i :: s.cancelled, halt := true, armed := s.armed.filter (· != i) } := by
   rw [fires_iff] at h
   unfold cancel
   simp [h.1, h.2]
@@ -100,10 +156,8 @@ theorem fires_cancel_ne (s : St) (i j : Nat) (hne : j ≠ i) :
     split
     · unfold fires
       simp only [List.contains_eq_mem, List.mem_cons, hne, false_or]
-      have : (j ∈ s.armed.erase i) ↔ j ∈ s.armed := by
-        constructor
-        · exact List.mem_of_mem_erase
-        · intro h; exact (List.mem_erase_of_ne hne).2 h
+      have : (j ∈ s.armed.filter (· != i)) ↔ j ∈ s.armed := by
+        simp [List.mem_filter, hne]
       simp [this]
     · unfold fires
       simp [List.contains_eq_mem, hne]
@@ -157,7 +211,7 @@ theorem cancel_armed_keep (s : St) (i k : Nat) (hne : k ≠ i) (hk : k ∈ s.arm
   · exact hk
   · simp only
     split
-    · exact (List.mem_erase_of_ne hne).2 hk
+    · simp [List.mem_filter, hk, hne]
     · exact hk
 
 theorem cancelAll_armed_keep (s : St) (is : List Nat) (k : Nat) (hk : k ∈ s.armed)
@@ -168,245 +222,638 @@ theorem cancelAll_armed_keep (s : St) (is : List Nat) (k : Nat) (hk : k ∈ s.ar
     simp only [List.mem_cons, not_or] at hn
     exact ih (cancel s i) (cancel_armed_keep s i k hn.1 hk) hn.2
 
-theorem mem_earlier (k : Nat) (is : List Nat) (x : Nat) (h : x ∈ earlier k is) : x < k := by
-  unfold earlier at h
-  simp only [List.mem_filter, decide_eq_true_eq] at h
+/-- a cancelled context stays cancelled -/
+theorem cancel_cancelled_mono (s : St) (i x : Nat) (hx : x ∈ s.cancelled) :
+    x ∈ (cancel s i).cancelled := by
+  unfold cancel
+  split
+  · exact hx
+  · simp only
+    split <;> simp [hx]
+
+theorem cancelAll_cancelled_mono (s : St) (is : List Nat) (x : Nat) (hx : x ∈ s.cancelled) :
+    x ∈ (cancelAll s is).cancelled := by
+  induction is generalizing s with
+  | nil => exact hx
+  | cons i t ih => exact ih (cancel s i) (cancel_cancelled_mono s i x hx)
+
+theorem mem_others (c : Nat) (is : List Nat) (x : Nat) (h : x ∈ others c is) : x ≠ c := by
+  unfold others at h
+  simp only [List.mem_filter, bne_iff_ne, ne_eq] at h
   exact h.2
 
+/-- cancelling OTHER contexts does not change whether `c` is cancelled -/
+theorem cancelAll_others_contains (s : St) (c : Nat) (is : List Nat) :
+    (cancelAll s (others c is)).cancelled.contains c = s.cancelled.contains c := by
+  cases h : s.cancelled.contains c with
+  | true =>
+    have := cancelAll_cancelled_mono s (others c is) c (by simpa using h)
+    simpa using this
+  | false =>
+    have hn : c ∉ s.cancelled := by simpa using h
+    have : c ∉ (cancelAll s (others c is)).cancelled := by
+      intro hc
+      rcases cancelAll_cancelled s _ c hc with h1 | h1
+      · exact hn h1
+      · exact mem_others c is c h1 rfl
+    simpa using this
+
 /-- the invariant that holds between invocations, for histories of any length: the VM is
-    not running, the frame pointer is back at the base frame, and only contexts of earlier
-    invocations have been cancelled.  `halt`, `sp`, the armed watchers, the module cache
-    are deliberately NOT constrained: they are whatever the earlier invocations left. -/
+    not running, the frame pointer is back at the base frame, and a VM that has never been
+    started has no wrapped code.  `halt`, `sp`, the armed watchers, the module cache, which
+    contexts are cancelled and what the code objects contain are deliberately NOT constrained:
+    they are whatever the earlier invocations and the host left.  (The index `k` is kept for
+    the statements' sake; nothing depends on it.) -/
 structure Good (s : St) (k : Nat) : Prop where
   quiet : s.running = false
   fp0 : s.fp = 0
-  early : ∀ i ∈ s.cancelled, i < k
+  cold : s.startCount = 0 → s.loaded = []
 
 theorem good_fresh (acc k : Nat) : Good (fresh acc) k :=
-  ⟨rfl, rfl, by intro i hi; simp [fresh] at hi⟩
+  ⟨rfl, rfl, fun _ => rfl⟩
 
 theorem setup_facts (s : St) :
     (setup s).running = s.running ∧ (setup s).acc = s.acc ∧ (setup s).cancelled = s.cancelled ∧
-    (setup s).armed = s.armed ∧ (s.fp = 0 → (setup s).fp = 0) := by
+    (setup s).armed = s.armed ∧ (s.fp = 0 → (setup s).fp = 0) ∧ (setup s).grown = s.grown ∧
+    (setup s).loaded = s.loaded ∧ s.startCount ≤ (setup s).startCount := by
   unfold setup
   split <;> simp
 
+theorem events_facts (s : St) (inv : Inv) :
+    (events s inv).running = s.running ∧ (events s inv).acc = s.acc ∧ (events s inv).fp = s.fp ∧
+    (events s inv).startCount = s.startCount ∧ (events s inv).loaded = s.loaded ∧
+    (events s inv).grown = inv.grows ++ s.grown := by
+  unfold events
+  obtain ⟨h1, h2, _, h4, _, _, h7⟩ := cancelAll_sameCore { s with grown := inv.grows ++ s.grown } inv.pre
+  obtain ⟨c1, c2, _, _, _⟩ := cancelAll_code { s with grown := inv.grows ++ s.grown } inv.pre
+  exact ⟨h1, h7, h4, h2, c2, c1⟩
+
 theorem prep_facts (s : St) (k : Nat) (inv : Inv) (g : Good s k) :
     (prep s k inv).running = false ∧ (prep s k inv).acc = s.acc ∧ (prep s k inv).fp = 0 ∧
-    (∀ i ∈ (prep s k inv).cancelled, i < k) := by
-  have hc := cancelAll_sameCore s (earlier k inv.pre)
-  obtain ⟨h1, _, _, h4, _, _, h7⟩ := hc
-  have he : ∀ i ∈ (cancelAll s (earlier k inv.pre)).cancelled, i < k := by
-    intro i hi
-    rcases cancelAll_cancelled s _ i hi with h | h
-    · exact g.early i h
-    · exact mem_earlier k _ i h
-  unfold prep
+    (prep s k inv).cancelled = (preState s k inv).cancelled ∧
+    (prep s k inv).grown = (preState s k inv).grown ∧
+    ((prep s k inv).startCount = 0 → (prep s k inv).loaded = []) ∧
+    (0 < s.startCount → 0 < (prep s k inv).startCount) := by
+  obtain ⟨e1, e2, e3, e4, e5, _⟩ := events_facts s inv
+  unfold prep preState
   simp only
   split
-  · obtain ⟨a, b, c, _, e⟩ := setup_facts (cancelAll s (earlier k inv.pre))
-    refine ⟨by rw [a, h1, g.quiet], by rw [b, h7], e (by rw [h4, g.fp0]), ?_⟩
-    rw [c]; exact he
-  · exact ⟨by rw [h1, g.quiet], h7, by rw [h4, g.fp0], he⟩
+  · obtain ⟨a, b, c, _, e, f, h, i⟩ := setup_facts (events s inv)
+    refine ⟨by rw [a, e1, g.quiet], by rw [b, e2], e (by rw [e3, g.fp0]), c, f, ?_, ?_⟩
+    · intro h0
+      rw [h, e5]
+      exact g.cold (by omega)
+    · intro h0; omega
+  · refine ⟨by rw [e1, g.quiet], e2, by rw [e3, g.fp0], rfl, rfl, ?_, ?_⟩
+    · intro h0; rw [e5]; exact g.cold (by omega)
+    · intro h0; omega
 
 theorem enter_facts (s : St) (k : Nat) (inv : Inv) :
     (enter s k inv).halt = false ∧ (enter s k inv).running = true ∧
     (enter s k inv).acc = s.acc ∧ (enter s k inv).cancelled = s.cancelled ∧
-    (enter s k inv).armed = (if inv.bg then s.armed else k :: s.armed) ∧
-    (s.fp = 0 → (enter s k inv).fp = 0) := by
+    (enter s k inv).armed =
+      (if inv.bg || (!inv.bg && s.cancelled.contains (ctxOf k inv)) then s.armed
+       else ctxOf k inv :: s.armed) ∧
+    (s.fp = 0 → (enter s k inv).fp = 0) ∧ (enter s k inv).grown = s.grown ∧
+    (enter s k inv).startCount = s.startCount + 1 ∧
+    (enter s k inv).gone = (!inv.bg && s.cancelled.contains (ctxOf k inv)) := by
   unfold enter
   simp only
-  split <;> simp [start, reset]
+  split <;> split <;> simp [start, reset]
+
+/-- **`RunCode` wraps the code object as it is NOW**: on a VM whose wrapper cache is empty
+    whenever it has never been started, the snapshot that is executed has the code object's
+    current generation (after a reset the cache is empty; before the first start it is empty
+    by assumption) -/
+theorem enter_cur (s : St) (k : Nat) (inv : Inv) (hc : s.startCount = 0 → s.loaded = []) :
+    (enter s k inv).cur = if inv.kind = .runCode then genOf s (codeOf k inv) else 0 := by
+  unfold enter
+  simp only
+  by_cases hk : inv.kind = .runCode
+  · simp only [hk, true_and, ↓reduceIte]
+    by_cases h1 : 0 < s.startCount
+    · simp [h1, reset, genOf, start]
+    · have h0 : s.startCount = 0 := by omega
+      simp [h0, start, hc h0, genOf]
+  · simp [hk]
+
+theorem dead_eq (s : St) (k : Nat) (inv : Inv) (g : Good s k) :
+    (bodyState s k inv).gone = dead s k inv := by
+  obtain ⟨_, _, _, p4, _⟩ := prep_facts s k inv g
+  unfold bodyState dead
+  rw [(enter_facts (prep s k inv) k inv).2.2.2.2.2.2.2.2, p4]
+
+theorem eff_fields (s : St) (k : Nat) (inv : Inv) :
+    (eff s k inv).kind = inv.kind ∧ (eff s k inv).beh = inv.beh ∧ (eff s k inv).v = inv.v ∧
+    (eff s k inv).bump = inv.bump ∧ (eff s k inv).imp = inv.imp ∧
+    (eff s k inv).during = inv.during ∧ (eff s k inv).depth = inv.depth ∧
+    (eff s k inv).bg = (inv.bg || dead s k inv) := by
+  unfold eff
+  split
+  · rename_i h; simp [h]
+  · rename_i h; simp [h]
 
 /-- facts about the state in which the body starts, under the invariant -/
 theorem bodyState_facts (s : St) (k : Nat) (inv : Inv) (g : Good s k) :
     (bodyState s k inv).halt = false ∧ (bodyState s k inv).acc = s.acc ∧
-    (bodyState s k inv).fp = 0 ∧ (∀ i ∈ (bodyState s k inv).cancelled, i < k) ∧
-    (inv.bg = false → k ∈ (bodyState s k inv).armed) := by
-  obtain ⟨_, p2, p3, p4⟩ := prep_facts s k inv g
-  obtain ⟨e1, _, e3, e4, e5, e6⟩ := enter_facts (prep s k inv) k inv
+    (bodyState s k inv).fp = 0 ∧
+    (bodyState s k inv).cancelled = (preState s k inv).cancelled ∧
+    ((eff s k inv).bg = false → ctxOf k inv ∈ (bodyState s k inv).armed ∧
+        ctxOf k inv ∉ (bodyState s k inv).cancelled) ∧
+    (bodyState s k inv).cur = curGen s k inv ∧ (bodyState s k inv).running = true := by
+  obtain ⟨_, p2, p3, p4, p5, p6, _⟩ := prep_facts s k inv g
+  obtain ⟨e1, e2, e3, e4, e5, e6, _, _, _⟩ := enter_facts (prep s k inv) k inv
   unfold bodyState
-  refine ⟨e1, by rw [e3, p2], e6 p3, by rw [e4]; exact p4, ?_⟩
-  intro hb
-  rw [e5, hb]; simp
+  refine ⟨e1, by rw [e3, p2], e6 p3, by rw [e4, p4], ?_, ?_, e2⟩
+  · intro hb
+    rw [(eff_fields s k inv).2.2.2.2.2.2.2] at hb
+    simp only [Bool.or_eq_false_iff] at hb
+    have hd : (!inv.bg && (prep s k inv).cancelled.contains (ctxOf k inv)) = false := by
+      have := hb.2; unfold dead at this; rw [← p4] at this; exact this
+    rw [hb.1] at hd
+    refine ⟨by rw [e5, hb.1, hd]; simp, ?_⟩
+    rw [e4]
+    simpa using hd
+  · rw [enter_cur _ _ _ p6]
+    unfold curGen genOf
+    rw [p5]
 
 theorem fires_leafStart (b : St) (d bump : Nat) :
     fires { b with fp := b.fp + d + 1, acc := b.acc + bump } = fires b := by
   funext i; rfl
 
-/-- the state at the leaf: is `halt` set, and is the invocation's own context cancelled -/
-theorem leaf_facts (b : St) (k : Nat) (inv : Inv) (hh : b.halt = false)
-    (he : ∀ i ∈ b.cancelled, i < k) (ha : inv.bg = false → k ∈ b.armed) :
-    (leaf b k inv).acc = b.acc + inv.bump ∧
-    (leaf b k inv).fp = b.fp + inv.depth + 1 ∧
-    (leaf b k inv).running = b.running ∧
-    (leaf b k inv).halt = (ownCancel inv || (earlier k inv.during).any (fires b)) ∧
-    ((leaf b k inv).cancelled.contains k = ownCancel inv) ∧
-    (∀ i ∈ (leaf b k inv).cancelled, i < k + 1) := by
+/-- the state at the leaf of an invocation with context `c`: is `halt` set, and is the
+    invocation's own context cancelled -/
+theorem leaf_facts (b : St) (c : Nat) (inv : Inv) (hh : b.halt = false)
+    (hn : inv.bg = false → c ∉ b.cancelled) (ha : inv.bg = false → c ∈ b.armed) :
+    (leaf b c inv).acc = b.acc + inv.bump ∧
+    (leaf b c inv).fp = b.fp + inv.depth + 1 ∧
+    (leaf b c inv).running = b.running ∧
+    (leaf b c inv).halt = (ownCancel inv || (others c inv.during).any (fires b)) ∧
+    ((leaf b c inv).cancelled.contains c = (ownCancel inv || b.cancelled.contains c)) ∧
+    (leaf b c inv).cur = b.cur ∧ (leaf b c inv).loaded = b.loaded ∧
+    (leaf b c inv).startCount = b.startCount ∧ (leaf b c inv).gone = b.gone := by
   -- the state after the during-cancellations
   let s1 : St := { b with fp := b.fp + inv.depth + 1, acc := b.acc + inv.bump }
-  let s2 := cancelAll s1 (earlier k inv.during)
+  let s2 := cancelAll s1 (others c inv.during)
   have hcore : sameCore s2 s1 := cancelAll_sameCore s1 _
-  have hhalt : s2.halt = (earlier k inv.during).any (fires b) := by
+  obtain ⟨_, hld, hcur, _, hgone⟩ := cancelAll_code s1 (others c inv.during)
+  have hhalt : s2.halt = (others c inv.during).any (fires b) := by
     show (cancelAll s1 _).halt = _
     rw [cancelAll_halt, fires_leafStart]
     show (b.halt || _) = _
     rw [hh]; simp
-  have hearly : ∀ i ∈ s2.cancelled, i < k := by
-    intro i hi
-    rcases cancelAll_cancelled s1 _ i hi with h | h
-    · exact he i h
-    · exact mem_earlier k _ i h
-  have hk2 : k ∉ s2.cancelled := fun h => Nat.lt_irrefl k (hearly k h)
+  have hcont : s2.cancelled.contains c = b.cancelled.contains c :=
+    cancelAll_others_contains s1 c inv.during
   by_cases hown : inv.beh = .selfCancel ∧ inv.bg = false
   · -- the invocation cancels its own context: its own watcher fires
     have hoc : ownCancel inv = true := by unfold ownCancel; simp [hown.1, hown.2]
-    have hkarmed : k ∈ s2.armed := by
-      apply cancelAll_armed_keep s1 _ k (ha hown.2)
-      intro h; exact Nat.lt_irrefl k (mem_earlier k _ k h)
-    have hf : fires s2 k = true := (fires_iff s2 k).2 ⟨hkarmed, hk2⟩
-    have hleaf : leaf b k inv = cancel s2 k := by
+    have hk2 : c ∉ s2.cancelled := by
+      have : s2.cancelled.contains c = false := by
+        rw [hcont]; simpa using hn hown.2
+      simpa using this
+    have hkarmed : c ∈ s2.armed := by
+      apply cancelAll_armed_keep s1 _ c (ha hown.2)
+      intro h; exact mem_others c _ c h rfl
+    have hf : fires s2 c = true := (fires_iff s2 c).2 ⟨hkarmed, hk2⟩
+    have hleaf : leaf b c inv = cancel s2 c := by
       unfold leaf; simp only [hown, and_self, ↓reduceIte]; rfl
-    rw [hleaf, cancel_fires s2 k hf, hoc]
-    refine ⟨hcore.2.2.2.2.2.2, hcore.2.2.2.1, hcore.1, by simp, by simp, ?_⟩
-    intro i hi
-    simp only [List.mem_cons] at hi
-    rcases hi with h | h
-    · omega
-    · exact Nat.lt_succ_of_lt (hearly i h)
+    rw [hleaf, cancel_fires s2 c hf, hoc]
+    exact ⟨hcore.2.2.2.2.2.2, hcore.2.2.2.1, hcore.1, by simp, by simp, hcur, hld, hcore.2.1, hgone⟩
   · have hoc : ownCancel inv = false := by
       unfold ownCancel
       cases hb : inv.beh <;> cases hg : inv.bg <;> simp_all
-    have hleaf : leaf b k inv = s2 := by
+    have hleaf : leaf b c inv = s2 := by
       unfold leaf; simp only [hown, ↓reduceIte]; rfl
     rw [hleaf, hoc]
-    refine ⟨hcore.2.2.2.2.2.2, hcore.2.2.2.1, hcore.1, by rw [hhalt]; simp, ?_, ?_⟩
-    · simpa using hk2
-    · intro i hi; exact Nat.lt_succ_of_lt (hearly i hi)
+    exact ⟨hcore.2.2.2.2.2.2, hcore.2.2.2.1, hcore.1, by rw [hhalt]; simp, by rw [hcont]; simp,
+      hcur, hld, hcore.2.1, hgone⟩
 
+/-- `invoke` under the invariant: never refused; stopped at once by a dead context, or the body runs -/
 theorem invoke_eq (s : St) (k : Nat) (inv : Inv) (g : Good s k) :
-    invoke s k inv = ({ (core (bodyState s k inv) k inv).1 with running := false },
-                      (core (bodyState s k inv) k inv).2) := by
+    invoke s k inv =
+      if cut s k inv then
+        (cutState (bodyState s k inv) inv, .errCanceled)
+      else ({ (core (bodyState s k inv) (ctxOf k inv) (eff s k inv)).1 with running := false },
+            (core (bodyState s k inv) (ctxOf k inv) (eff s k inv)).2) := by
   have hp := (prep_facts s k inv g).1
-  unfold invoke bodyState
+  unfold invoke
   simp [hp]
 
+theorem invoke_body (s : St) (k : Nat) (inv : Inv) (g : Good s k) (hc : cut s k inv = false) :
+    invoke s k inv =
+      ({ (core (bodyState s k inv) (ctxOf k inv) (eff s k inv)).1 with running := false },
+       (core (bodyState s k inv) (ctxOf k inv) (eff s k inv)).2) := by
+  rw [invoke_eq s k inv g, hc]; rfl
+
 /-- the Spec never yields the two outcomes that only a harmed invocation produces -/
-theorem spec_ne (inv : Inv) (a : Nat) :
-    specOutcome inv a ≠ .errImport ∧ specOutcome inv a ≠ .okHook := by
+theorem spec_ne (inv : Inv) (a g : Nat) (d : Bool) :
+    specOutcome inv a g d ≠ .errImport ∧ specOutcome inv a g d ≠ .okHook := by
   unfold specOutcome
   split
   · exact ⟨by simp, by simp⟩
   · unfold behOutcome
     cases inv.beh <;> exact ⟨by simp, by simp⟩
 
+/-- no script ending yields `context.Canceled` by itself -/
+theorem beh_ne_canceled (b : Beh) (v a g : Nat) : behOutcome b v a g ≠ .errCanceled := by
+  unfold behOutcome; cases b <;> simp
+
 /-- what ends a run inside the module's top-level code yields the outcome the Spec demands -/
-theorem modEnd_outcome (s : St) (k : Nat) (inv : Inv) (h : modEnds s inv = true) :
-    (modEnd s k inv).2 = specOutcome inv s.acc := by
+theorem modEnd_outcome (s : St) (c : Nat) (inv : Inv) (h : modEnds s inv = true) :
+    (modEnd s c inv).2 = specOutcome inv s.acc s.cur false := by
   unfold modEnd specOutcome
   simp only
   cases hoc : ownCancel inv with
   | true => simp
   | false =>
-    simp only [Bool.false_eq_true, ↓reduceIte]
+    simp only [Bool.false_eq_true, ↓reduceIte, Bool.or_self]
     unfold modEnds at h
     rw [hoc] at h
     unfold behOutcome
     cases hb : inv.beh <;> simp_all
 
-/-- ... and leaves the frame pointer, the running flag alone and cancels at most the
-    invocation's own context -/
-theorem modEnd_facts (s : St) (k : Nat) (inv : Inv) :
-    (modEnd s k inv).1.fp = s.fp ∧
-    (∀ i ∈ (modEnd s k inv).1.cancelled, i ∈ s.cancelled ∨ i = k) := by
+/-- ... and leaves the frame pointer, the running flag and the wrapper cache alone -/
+theorem modEnd_facts (s : St) (c : Nat) (inv : Inv) :
+    (modEnd s c inv).1.fp = s.fp ∧ (modEnd s c inv).1.startCount = s.startCount := by
   unfold modEnd
   simp only
   cases ownCancel inv with
   | true =>
     simp only [↓reduceIte]
-    exact ⟨(cancel_sameCore s k).2.2.2.1, fun i hi => cancel_cancelled s k i hi⟩
+    exact ⟨(cancel_sameCore s c).2.2.2.1, (cancel_sameCore s c).2.1⟩
   | false =>
     simp only [Bool.false_eq_true, ↓reduceIte]
-    exact ⟨trivial, fun i hi => Or.inl hi⟩
+    exact ⟨trivial, trivial⟩
+
+theorem ownCancel_eff_dead (s : St) (k : Nat) (inv : Inv) (hd : dead s k inv = true) :
+    ownCancel (eff s k inv) = false := by
+  unfold ownCancel
+  rw [(eff_fields s k inv).2.2.2.2.2.2.2, hd]; simp
 
 /-- **One invocation, any state an arbitrary history can leave behind.**  Its outcome is
-    determined by three things only: whether the import of a global module fails, whether a
-    stale watcher fires, and otherwise the Spec (own code, arguments, current globals) - in
-    particular it does not depend on whether the file module is cached, on where (module
-    top-level code or leaf) the run ends, or on which code object is re-supplied. -/
+    determined by: whether its own context is already cancelled (and, for `RunCode` on a used
+    VM, whether the reset wipes that cancellation), whether the import of a global module
+    fails, whether a stale watcher fires, and otherwise the Spec (own code AS IT IS NOW,
+    arguments, current globals, own context) - in particular it does not depend on whether the
+    file module is cached, on where (module top-level code or leaf) the run ends, on which
+    other invocations used the same context object, or on whether the code object was run
+    before it grew. -/
 theorem step_outcome (s : St) (k : Nat) (inv : Inv) (g : Good s k) :
     (invoke s k inv).2 =
-      if importFails s k inv then .errImport
+      if cut s k inv then .errCanceled
+      else if importFails s k inv then .errImport
+      else if lostFires s k inv then
+        (if staleFires s k inv || lostImport s k inv then .errCanceled
+         else behOutcome inv.beh inv.v (s.acc + inv.bump) (curGen s k inv))
       else if staleFires s k inv && !ownCancel inv then .okHook
-      else specOutcome inv s.acc := by
-  rw [invoke_eq s k inv g]
-  obtain ⟨b1, b2, _, b4, b5⟩ := bodyState_facts s k inv g
-  by_cases himp : inv.imp = true ∧ (bodyState s k inv).mods = false
-  · have hf : importFails s k inv = true := by unfold importFails; simp [himp.1, himp.2]
-    rw [hf]
-    unfold core
-    simp [himp.1, himp.2]
-  · have hf : importFails s k inv = false := by
-      unfold importFails
-      cases h1 : inv.imp <;> cases h2 : (bodyState s k inv).mods <;> simp_all
-    rw [hf]
-    cases hme : modEnds (bodyState s k inv) inv with
-    | true =>
-      have hcore : (core (bodyState s k inv) k inv).2 = (modEnd (bodyState s k inv) k inv).2 := by
-        unfold core; simp only [himp, hme, ↓reduceIte]
-      have hs : staleFires s k inv = false := by unfold staleFires; rw [hme]; simp
+      else specAt s k inv := by
+  cases hc : cut s k inv with
+  | true => rw [invoke_eq s k inv g, hc]; rfl
+  | false =>
+    rw [invoke_body s k inv g hc]
+    simp only [Bool.false_eq_true, ↓reduceIte]
+    obtain ⟨b1, b2, _, b4, b5, b6, _⟩ := bodyState_facts s k inv g
+    obtain ⟨f1, f2, f3, f4, f5, f6, f7, f8⟩ := eff_fields s k inv
+    have hgone := dead_eq s k inv g
+    by_cases himp : inv.imp = true ∧ (bodyState s k inv).mods = false
+    · have hf : importFails s k inv = true := by unfold importFails; simp [hc, himp.1, himp.2]
+      rw [hf]; unfold core; simp [f5, himp.1, himp.2]
+    · have hf : importFails s k inv = false := by
+        unfold importFails
+        cases h1 : inv.imp <;> cases h2 : (bodyState s k inv).mods <;> simp_all
+      rw [hf]
       simp only [Bool.false_eq_true, ↓reduceIte]
-      rw [hcore, hs, modEnd_outcome _ k inv hme, b2]
-      simp
-    | false =>
-      obtain ⟨l1, _, _, l4, l5, _⟩ := leaf_facts (bodyState s k inv) k inv b1 b4 b5
-      have hcore : (core (bodyState s k inv) k inv).2
-          = leafOutcome (leaf (bodyState s k inv) k inv) k inv := by
-        unfold core; simp only [himp, hme, Bool.false_eq_true, ↓reduceIte]
-      simp only [Bool.false_eq_true, ↓reduceIte]
-      rw [hcore]
-      unfold leafOutcome
-      rw [l4, l5, l1, b2]
-      unfold staleFires
-      rw [hf, hme]
-      unfold specOutcome
-      cases ownCancel inv <;> cases (earlier k inv.during).any (fires (bodyState s k inv)) <;> simp
+      have himp' : ¬((eff s k inv).imp = true ∧ (bodyState s k inv).mods = false) := by
+        rw [f5]; exact himp
+      have hn : (eff s k inv).bg = false → ctxOf k inv ∉ (bodyState s k inv).cancelled :=
+        fun h => (b5 h).2
+      have ha : (eff s k inv).bg = false → ctxOf k inv ∈ (bodyState s k inv).armed :=
+        fun h => (b5 h).1
+      obtain ⟨l1, _, _, l4, l5, l6, _, _, l9⟩ :=
+        leaf_facts (bodyState s k inv) (ctxOf k inv) (eff s k inv) b1 hn ha
+      have hmr : modRuns (bodyState s k inv) (eff s k inv) = modRuns (bodyState s k inv) inv := by
+        unfold eff; split <;> rfl
+      by_cases gi : (bodyState s k inv).gone = true ∧
+          modRuns (bodyState s k inv) (eff s k inv) = true ∧ (bodyState s k inv).icache = false
+      · -- the importer gives up with the error of the dead context
+        have hd : dead s k inv = true := by rw [← hgone]; exact gi.1
+        have hl : lostFires s k inv = true := by
+          unfold lostFires; unfold cut at hc; rw [hd] at hc ⊢; simpa using hc
+        have hli : lostImport s k inv = true := by
+          unfold lostImport; rw [hc, hf, hd, ← hmr, gi.2.1, gi.2.2]; rfl
+        rw [hl, hli]
+        unfold core
+        simp only [himp', gi, and_self, ↓reduceIte, Bool.or_true]
+      have hli0 : (dead s k inv && modRuns (bodyState s k inv) inv &&
+          !(bodyState s k inv).icache) = false := by
+        rw [← hgone, ← hmr]
+        cases h1 : (bodyState s k inv).gone <;>
+          cases h2 : modRuns (bodyState s k inv) (eff s k inv) <;>
+          cases h3 : (bodyState s k inv).icache <;> simp_all
+      have hli : lostImport s k inv = false := by
+        unfold lostImport
+        rw [hli0]; simp
+      rw [hli]
+      simp only [Bool.or_false]
+      cases hme : modEnds (bodyState s k inv) (eff s k inv) with
+      | true =>
+        have hcore : (core (bodyState s k inv) (ctxOf k inv) (eff s k inv)).2
+            = (modEnd (bodyState s k inv) (ctxOf k inv) (eff s k inv)).2 := by
+          unfold core; simp only [himp', gi, hme, ↓reduceIte]
+        have hs : staleFires s k inv = false := by unfold staleFires; rw [hme]; simp
+        rw [hcore, hs, modEnd_outcome _ _ _ hme, b2, b6]
+        simp only [Bool.false_eq_true, ↓reduceIte, Bool.false_and]
+        cases hd : dead s k inv with
+        | false =>
+          have hl : lostFires s k inv = false := by unfold lostFires; rw [hd]; rfl
+          have he : eff s k inv = inv := by unfold eff; simp [hd]
+          rw [hl, he]; simp only [Bool.false_eq_true, ↓reduceIte]
+          unfold specAt; rw [hd]
+        | true =>
+          have hl : lostFires s k inv = true := by
+            unfold lostFires; unfold cut at hc; rw [hd] at hc ⊢; simpa using hc
+          rw [hl]; simp only [↓reduceIte]
+          unfold specOutcome
+          rw [ownCancel_eff_dead s k inv hd, f2, f3, f4]; simp
+      | false =>
+        have hcore : (core (bodyState s k inv) (ctxOf k inv) (eff s k inv)).2
+            = leafOutcome (leaf (bodyState s k inv) (ctxOf k inv) (eff s k inv)) (ctxOf k inv)
+                (eff s k inv) := by
+          unfold core; simp only [himp', gi, hme, Bool.false_eq_true, ↓reduceIte]
+        have hs : staleFires s k inv =
+            (others (ctxOf k inv) inv.during).any (fires (bodyState s k inv)) := by
+          unfold staleFires; rw [hc, hf, hme, hli0]; simp
+        rw [hcore]
+        unfold leafOutcome
+        rw [l4, l5, l1, l6, l9, b2, b6, hgone, f2, f3, f4, f6, ← hs]
+        cases hd : dead s k inv with
+        | false =>
+          have hl : lostFires s k inv = false := by unfold lostFires; rw [hd]; rfl
+          have he : eff s k inv = inv := by unfold eff; simp [hd]
+          have hcc : (!inv.bg && (bodyState s k inv).cancelled.contains (ctxOf k inv)) = false := by
+            rw [b4]; unfold dead at hd; exact hd
+          rw [hl, he]
+          unfold specAt specOutcome
+          rw [hd]
+          have hob : inv.bg = true → ownCancel inv = false := by
+            intro h; unfold ownCancel; simp [h]
+          cases hoc : ownCancel inv <;> cases staleFires s k inv <;> cases hbg : inv.bg <;>
+            simp_all
+        | true =>
+          have hl : lostFires s k inv = true := by
+            unfold lostFires; unfold cut at hc; rw [hd] at hc ⊢; simpa using hc
+          rw [hl, ownCancel_eff_dead s k inv hd]
+          cases staleFires s k inv <;> simp
+
+theorem bodyState_started (s : St) (k : Nat) (inv : Inv) :
+    (bodyState s k inv).startCount = (prep s k inv).startCount + 1 :=
+  (enter_facts (prep s k inv) k inv).2.2.2.2.2.2.2.1
 
 /-- the invariant is re-established by every invocation, however (and wherever) it ends -/
 theorem step_good (s : St) (k : Nat) (inv : Inv) (g : Good s k) :
     Good (invoke s k inv).1 (k + 1) := by
-  rw [invoke_eq s k inv g]
-  obtain ⟨b1, _, b3, b4, b5⟩ := bodyState_facts s k inv g
-  by_cases himp : inv.imp = true ∧ (bodyState s k inv).mods = false
-  · unfold core
-    simp only [himp, and_self, ↓reduceIte]
-    exact ⟨rfl, b3, fun i hi => Nat.lt_succ_of_lt (b4 i hi)⟩
-  · cases hme : modEnds (bodyState s k inv) inv with
-    | true =>
-      obtain ⟨m1, m2⟩ := modEnd_facts (bodyState s k inv) k inv
-      have hcore : core (bodyState s k inv) k inv = modEnd (bodyState s k inv) k inv := by
-        unfold core; simp only [himp, hme, ↓reduceIte]
-      rw [hcore]
-      refine ⟨rfl, by show (modEnd (bodyState s k inv) k inv).1.fp = 0; rw [m1, b3], ?_⟩
-      intro i hi
-      rcases m2 i hi with h | h
-      · exact Nat.lt_succ_of_lt (b4 i h)
-      · omega
-    | false =>
-      obtain ⟨_, l2, _, _, _, l6⟩ := leaf_facts (bodyState s k inv) k inv b1 b4 b5
-      unfold core
-      simp only [himp, hme, Bool.false_eq_true, ↓reduceIte]
-      refine ⟨rfl, ?_, l6⟩
-      show (leaf (bodyState s k inv) k inv).fp - (inv.depth + 1) = 0
-      rw [l2, b3]; omega
+  obtain ⟨b1, _, b3, b4, b5, _, _⟩ := bodyState_facts s k inv g
+  have hsc := bodyState_started s k inv
+  cases hc : cut s k inv with
+  | true =>
+    rw [invoke_eq s k inv g, hc]
+    exact ⟨rfl, b3, fun h => by
+      have : (bodyState s k inv).startCount = 0 := h
+      omega⟩
+  | false =>
+    rw [invoke_body s k inv g hc]
+    have f5 := (eff_fields s k inv).2.2.2.2.1
+    have f7 := (eff_fields s k inv).2.2.2.2.2.2.1
+    by_cases himp : (eff s k inv).imp = true ∧ (bodyState s k inv).mods = false
+    · unfold core
+      simp only [himp, and_self, ↓reduceIte]
+      exact ⟨rfl, b3, fun h => by
+        have : (bodyState s k inv).startCount = 0 := h
+        omega⟩
+    · by_cases gi : (bodyState s k inv).gone = true ∧
+          modRuns (bodyState s k inv) (eff s k inv) = true ∧ (bodyState s k inv).icache = false
+      · unfold core
+        simp only [himp, gi, and_self, ↓reduceIte]
+        exact ⟨rfl, b3, fun h => by
+          have : (bodyState s k inv).startCount = 0 := h
+          omega⟩
+      cases hme : modEnds (bodyState s k inv) (eff s k inv) with
+      | true =>
+        obtain ⟨m1, m2⟩ := modEnd_facts (bodyState s k inv) (ctxOf k inv) (eff s k inv)
+        have hcore : core (bodyState s k inv) (ctxOf k inv) (eff s k inv)
+            = modEnd (bodyState s k inv) (ctxOf k inv) (eff s k inv) := by
+          unfold core; simp only [himp, gi, hme, ↓reduceIte]
+        rw [hcore]
+        refine ⟨rfl, ?_, ?_⟩
+        · show (modEnd (bodyState s k inv) (ctxOf k inv) (eff s k inv)).1.fp = 0
+          rw [m1, b3]
+        · intro h
+          have : (modEnd (bodyState s k inv) (ctxOf k inv) (eff s k inv)).1.startCount = 0 := h
+          omega
+      | false =>
+        have hn : (eff s k inv).bg = false → ctxOf k inv ∉ (bodyState s k inv).cancelled :=
+          fun h => (b5 h).2
+        have ha : (eff s k inv).bg = false → ctxOf k inv ∈ (bodyState s k inv).armed :=
+          fun h => (b5 h).1
+        obtain ⟨_, l2, _, _, _, _, _, l8, _⟩ :=
+          leaf_facts (bodyState s k inv) (ctxOf k inv) (eff s k inv) b1 hn ha
+        unfold core
+        simp only [himp, gi, hme, Bool.false_eq_true, ↓reduceIte]
+        refine ⟨rfl, ?_, ?_⟩
+        · show (leaf (bodyState s k inv) (ctxOf k inv) (eff s k inv)).fp
+              - ((eff s k inv).depth + 1) = 0
+          rw [l2, b3]; omega
+        · intro h
+          have : (leaf (bodyState s k inv) (ctxOf k inv) (eff s k inv)).startCount = 0 := h
+          omega
 
 /-- while the host callback runs the VM is marked running: a re-entrant Run/RunCode/Call
     from the callback is refused -/
 theorem leaf_running (s : St) (k : Nat) (inv : Inv) (g : Good s k) :
-    (leaf (bodyState s k inv) k inv).running = true := by
-  obtain ⟨b1, _, _, b4, b5⟩ := bodyState_facts s k inv g
-  obtain ⟨_, _, l3, _⟩ := leaf_facts (bodyState s k inv) k inv b1 b4 b5
+    (leaf (bodyState s k inv) (ctxOf k inv) (eff s k inv)).running = true := by
+  obtain ⟨b1, _, _, _, b5, _, b7⟩ := bodyState_facts s k inv g
+  obtain ⟨_, _, l3, _⟩ := leaf_facts (bodyState s k inv) (ctxOf k inv) (eff s k inv) b1
+    (fun h => (b5 h).2) (fun h => (b5 h).1)
   rw [l3]
-  exact (enter_facts (prep s k inv) k inv).2.1
+  exact b7
+
+/-! ### Nothing but `RunCode`'s look-up reads the wrapper cache, and nothing but the look-up
+reads which code OBJECT an invocation is handed -/
+
+/-- forget which code objects are wrapped -/
+def forget (s : St) : St := { s with loaded := [] }
+
+/-- forget which code object the invocation re-supplies -/
+def freshCode (inv : Inv) : Inv := { inv with same := none }
+
+theorem forget_loaded (s : St) (l : List (Nat × Nat)) : forget { s with loaded := l } = forget s := rfl
+
+theorem eq_of_forget {a b : St} (h : forget a = forget b) : b = { a with loaded := b.loaded } := by
+  cases a; cases b
+  simp only [forget, St.mk.injEq] at h ⊢
+  simp [h]
+
+theorem setup_loaded (s : St) (l : List (Nat × Nat)) :
+    setup { s with loaded := l } = { setup s with loaded := l } := by
+  unfold setup
+  simp only
+  split <;> rfl
+
+theorem prep_loaded (s : St) (k : Nat) (inv : Inv) (l : List (Nat × Nat)) :
+    prep { s with loaded := l } k inv = { prep s k inv with loaded := l } := by
+  have he : events { s with loaded := l } inv = { events s inv with loaded := l } := by
+    unfold events
+    exact cancelAll_loaded { s with grown := inv.grows ++ s.grown } inv.pre l
+  unfold prep preState
+  simp only
+  rw [he]
+  split
+  · exact setup_loaded _ _
+  · rfl
+
+theorem leaf_loaded (s : St) (c : Nat) (inv : Inv) (l : List (Nat × Nat)) :
+    leaf { s with loaded := l } c inv = { leaf s c inv with loaded := l } := by
+  unfold leaf
+  simp only
+  have h := cancelAll_loaded { s with fp := s.fp + inv.depth + 1, acc := s.acc + inv.bump }
+    (others c inv.during) l
+  split
+  · exact (congrArg (fun x => cancel x c) h).trans (cancel_loaded _ _ _)
+  · exact h
+
+theorem modEnd_loaded (s : St) (c : Nat) (inv : Inv) (l : List (Nat × Nat)) :
+    modEnd { s with loaded := l } c inv =
+      ({ (modEnd s c inv).1 with loaded := l }, (modEnd s c inv).2) := by
+  unfold modEnd
+  dsimp only
+  cases ownCancel inv
+  · rfl
+  · simp only [↓reduceIte]
+    rw [cancel_loaded]
+
+theorem core_loaded (s : St) (c : Nat) (inv : Inv) (l : List (Nat × Nat)) :
+    core { s with loaded := l } c inv = ({ (core s c inv).1 with loaded := l }, (core s c inv).2) := by
+  have hm : modEnds { s with loaded := l } inv = modEnds s inv := rfl
+  have hr : ∀ o, modResidue { s with loaded := l } inv o = modResidue s inv o := fun _ => rfl
+  unfold core
+  dsimp only
+  rw [hm, leaf_loaded, modEnd_loaded]
+  by_cases h1 : inv.imp = true ∧ s.mods = false
+  · simp only [h1, and_self, ↓reduceIte]
+  · simp only [h1, ↓reduceIte]
+    have hmr : modRuns { s with loaded := l } inv = modRuns s inv := rfl
+    rw [hmr]
+    by_cases h3 : s.gone = true ∧ modRuns s inv = true ∧ s.icache = false
+    · simp only [h3, and_self, ↓reduceIte]
+    · simp only [h3, ↓reduceIte]
+      cases h2 : modEnds s inv
+      · simp only [Bool.false_eq_true, ↓reduceIte]
+        rfl
+      · simp only [↓reduceIte]
+
+/-- the state in which the body starts, up to the wrapper cache, is the same whatever the
+    cache held and whichever code object (with the same current contents) is handed in -/
+theorem enter_forget (p : St) (k : Nat) (inv : Inv) (l : List (Nat × Nat))
+    (hc : p.startCount = 0 → p.loaded = []) (hc' : p.startCount = 0 → l = [])
+    (hg : inv.kind = .runCode → genOf p (codeOf k (freshCode inv)) = genOf p (codeOf k inv)) :
+    forget (enter { p with loaded := l } k (freshCode inv)) = forget (enter p k inv) := by
+  unfold enter
+  simp only
+  by_cases hk : inv.kind = .runCode
+  · have hk' : (freshCode inv).kind = .runCode := hk
+    have hgk := hg hk
+    simp only [hk, hk', true_and, ↓reduceIte]
+    by_cases h1 : 0 < p.startCount
+    · simp [h1, reset, start, forget, genOf, ctxOf, freshCode] at hgk ⊢
+      simp [genOf, codeOf, freshCode] at hgk
+      exact hgk
+    · have h0 : p.startCount = 0 := by omega
+      simp [h0, start, forget, genOf, hc h0, hc' h0, ctxOf, freshCode] at hgk ⊢
+      simp [genOf, codeOf, freshCode] at hgk
+      exact hgk
+  · have hk' : ¬ (freshCode inv).kind = .runCode := hk
+    simp only [hk, hk', false_and, ↓reduceIte]
+    rfl
+
+/-- **One invocation never reads the wrapper cache nor the code object's identity** (only
+    the code object's current contents): from states that differ in the cache only, handing in
+    a newly compiled code object instead of a re-supplied one with the same current contents
+    gives the same outcome and the same state up to the cache. -/
+theorem invoke_freshCode (s : St) (l : List (Nat × Nat)) (k : Nat) (inv : Inv) (g : Good s k)
+    (g' : Good { s with loaded := l } k)
+    (hg : curGen s k (freshCode inv) = curGen s k inv) :
+    forget (invoke { s with loaded := l } k (freshCode inv)).1 = forget (invoke s k inv).1 ∧
+    (invoke { s with loaded := l } k (freshCode inv)).2 = (invoke s k inv).2 := by
+  obtain ⟨_, _, _, _, p5, p6, _⟩ := prep_facts s k inv g
+  have hprep : prep { s with loaded := l } k (freshCode inv) = { prep s k inv with loaded := l } :=
+    prep_loaded s k inv l
+  have hev : events { s with loaded := l } inv = { events s inv with loaded := l } := by
+    unfold events
+    exact cancelAll_loaded { s with grown := inv.grows ++ s.grown } inv.pre l
+  have hdead : dead { s with loaded := l } k (freshCode inv) = dead s k inv := by
+    unfold dead preState
+    show (!inv.bg && (events { s with loaded := l } inv).cancelled.contains (ctxOf k inv)) = _
+    rw [hev]
+  have hcut : cut { s with loaded := l } k (freshCode inv) = cut s k inv := by
+    unfold cut; rw [hdead]; rfl
+  have heff : eff { s with loaded := l } k (freshCode inv) = freshCode (eff s k inv) := by
+    unfold eff; rw [hdead]; split <;> rfl
+  have hpc : (prep s k inv).startCount = 0 → l = [] := by
+    intro h0
+    have := (prep_facts _ k (freshCode inv) g').2.2.2.2.2.1
+    rw [hprep] at this
+    exact this h0
+  have hbody : forget (bodyState { s with loaded := l } k (freshCode inv)) = forget (bodyState s k inv) := by
+    unfold bodyState
+    rw [hprep]
+    apply enter_forget _ _ _ _ p6 hpc
+    intro hk
+    unfold curGen at hg
+    have hk' : (freshCode inv).kind = .runCode := hk
+    rw [if_pos hk, if_pos hk'] at hg
+    unfold genOf at hg ⊢
+    rw [p5]
+    exact hg
+  have hb := eq_of_forget hbody.symm
+  rw [invoke_eq _ k (freshCode inv) g', invoke_eq s k inv g, hcut]
+  split
+  · constructor
+    · rw [hb]; rfl
+    · rfl
+  · rw [heff, hb]
+    have hcc : ∀ (b : St) (c : Nat) (e : Inv), core b c (freshCode e) = core b c e := fun _ _ _ => rfl
+    show forget _ = forget _ ∧ _
+    rw [hcc, core_loaded]
+    exact ⟨rfl, rfl⟩
+
+/-- an invocation changes the contents of code objects only through its `grows` events -/
+theorem invoke_grown (s : St) (k : Nat) (inv : Inv) (g : Good s k) :
+    (invoke s k inv).1.grown = inv.grows ++ s.grown := by
+  have hb : (bodyState s k inv).grown = inv.grows ++ s.grown := by
+    unfold bodyState
+    rw [(enter_facts (prep s k inv) k inv).2.2.2.2.2.2.1, (prep_facts s k inv g).2.2.2.2.1]
+    exact (events_facts s inv).2.2.2.2.2
+  rw [invoke_eq s k inv g]
+  split
+  · exact hb
+  · show (core (bodyState s k inv) (ctxOf k inv) (eff s k inv)).1.grown = _
+    unfold core
+    split
+    · exact hb
+    · split
+      · exact hb
+      split
+      · unfold modEnd
+        dsimp only
+        split
+        · rw [(cancel_code _ _).1]; exact hb
+        · exact hb
+      · show (leaf (bodyState s k inv) (ctxOf k inv) (eff s k inv)).grown = _
+        unfold leaf
+        dsimp only
+        split
+        · rw [(cancel_code _ _).1, (cancelAll_code _ _).1]; exact hb
+        · rw [(cancelAll_code _ _).1]; exact hb
 
 end Risor.C07
